@@ -422,7 +422,10 @@ class RegRef:
                 self._b(RX_ADDR_P0 + pipe, 0xFF, addr[0])  # "only the MSByte [first character] is written"
         self._b(EN_RXADDR, 1 << pipe, 1 << pipe)
         if pipe == 0:
-            self.p0_user = bytes(addr)
+            # "The existing address can be altered by writing a bytearray with a length less than 5": the pipe is opened on
+            # the given bytes followed by the bytes the register held above them - all five are the user's address (C08)
+            if len(addr):
+                self.p0_user = bytes(self.a[RX_ADDR_P0])
 
     def apply(self, call, observed_exc=None):
         """task interface: update the expected registers with the documented outcome (or with the accepted
